@@ -252,8 +252,8 @@ def d1_schedules(ctx, idx):
     r_range = ctx.rule('D1.RANGE', 'every piece of a schedule stays within [0, 1] (LinearCredit: >= minimum_credit)', floor=9)
     r_mono = ctx.rule('D1.MONO', 'every piece of a schedule is non-increasing in the attempt number', floor=8)
     r_cont = ctx.rule('D1.CONT', 'pieces agree at their common breakpoints (documented progression, no jump)', floor=5)
-    r_anchor = ctx.rule('D1.ANCHOR', 'LinearCredit: full credit up to decrease_credit_after, minimum credit from '
-                        'decrease_credit_after + decrease_credit_steps on', floor=2)
+    r_anchor = ctx.rule('D1.ANCHOR', 'documented progressions: LinearCredit full credit up to decrease_credit_after and minimum credit from '
+                        'decrease_credit_after + decrease_credit_steps on; GeometricCredit 1, x, x^2; ReciprocalCredit 1, 1/2, 1/3', floor=6)
     schedules = []
     with r_first:
         module = idx.module(MOD)
@@ -442,7 +442,56 @@ def _cont(r, sch):
 LINEAR_KEYS = ('decrease_credit_after', 'decrease_credit_steps', 'minimum_credit')
 
 
+def _anchor_points(r, sch, points):
+    """The documented progression (class docstring) at fixed attempts: s(point) == expect for every admissible configuration."""
+    full = ai.Piecewise(sch.paths, sch.var, sch.facts)
+    for point, expect, what in points:
+        construct = '%s.__call__ at attempt = %s' % (sch.ci.name, point.text())
+        proved, any_piece = True, False
+        for p in sch.pw.pieces:
+            if p.guard_status(point, sch.facts) == ai.FALSE:
+                continue
+            any_piece = True
+            try:
+                if not (p.value_at(point) == expect):
+                    proved = False
+            except Unsupported:
+                proved = False
+        if proved and any_piece:
+            r.ok(construct, 'value %s: %s' % (expect.text(), what), sch.fi.loc)
+            continue
+        found = None
+        for asg in sch.facts.witness_grid(full.symbols()):
+            a = dict(asg)
+            try:
+                a[sch.var] = _rat_value(point, asg)
+                kind, val = full.eval_concrete(a)
+                want = round(_rat_value(expect, asg), 4)
+            except (Unsupported, ZeroDivisionError):
+                continue
+            if kind == 'ret' and val != want:
+                found = (asg, a[sch.var], val, want)
+                break
+        if found:
+            asg, n, val, want = found
+            r.violation(construct, 'with %s, s(%s) = %s but %s requires %s' % (sch.cfgtext(asg), _fmt(n), _fmt(val), what, _fmt(want)),
+                        sch.fi.loc, expected='s(%s) = %s' % (point.text(), expect.text()), found=_fmt(val))
+        else:
+            r.undecided(construct, 'cannot evaluate the schedule at the anchor point', sch.fi.loc)
+
+
 def _anchor(r, sch):
+    if sch.ci.name == 'GeometricCredit':
+        if 'factor' not in sch.facts.syms:
+            raise AnalysisError('GeometricCredit schema lost option factor')
+        f = Rat.sym('factor')
+        _anchor_points(r, sch, [(Rat.const(2), f, 'the documented progression 1, x, x^2, ...'),
+                                (Rat.const(3), f * f, 'the documented progression 1, x, x^2, ...')])
+        return
+    if sch.ci.name == 'ReciprocalCredit':
+        _anchor_points(r, sch, [(Rat.const(2), Rat.const(ai.Fraction(1, 2)), 'the documented progression 1, 1/2, 1/3, ...'),
+                                (Rat.const(4), Rat.const(ai.Fraction(1, 4)), 'the documented progression 1, 1/2, 1/3, ...')])
+        return
     if sch.ci.name != 'LinearCredit':
         return
     for k in LINEAR_KEYS:
@@ -1358,6 +1407,9 @@ MUTANTS = [
     Mutant('linear-plateau-early', CREDIT, "        if steps >= decrease_steps:", "        if steps >= decrease_steps - 1:", 'D1'),
     Mutant('geometric-exponent', CREDIT, "self.config['factor'] ** (attempt - 1)", "self.config['factor'] ** attempt", 'D1'),
     Mutant('geometric-growing', CREDIT, "self.config['factor'] ** (attempt - 1)", "self.config['factor'] ** (1 - attempt)", 'D1'),
+    Mutant('geometric-first-attempt-test-inverted', CREDIT, "        if attempt == 1:\n            return 1\n        credit = self.config['factor']", "        if attempt != 1:\n            return 1\n        credit = self.config['factor']", 'D1',
+           note='sweep: the schedule becomes constantly 1 (bounded, monotone, s(1)=1) - only the documented progression notices'),
+    Mutant('reciprocal-first-attempt-test-inverted', CREDIT, "        if attempt == 1:\n            return 1\n        credit = 1.0 / attempt", "        if attempt != 1:\n            return 1\n        credit = 1.0 / attempt", 'D1'),
     Mutant('reciprocal-plus-one', CREDIT, "credit = 1.0 / attempt", "credit = 1.0 / (attempt + 1)", 'D1'),
     Mutant('reciprocal-numerator', CREDIT, "credit = 1.0 / attempt", "credit = 2.0 / attempt", 'D1'),
     Mutant('none-check-dropped', BASE, _NONE_BLOCK, "", 'D2'),
@@ -1396,6 +1448,9 @@ MUTANTS = [
 ]
 
 BENIGN = [
+    Benign('positive-validator-with-starred-bounds', 'mitxgraders/helpers/validatorfuncs.py',
+           "    if thetype == int:\n        return All(thetype, Range(1, float('inf')))\n    else:\n        return All(thetype, Range(0, float('inf')), NotIn([0]))\n",
+           "    if thetype == int:\n        bounds = [Range(1, float('inf'))]\n    else:\n        bounds = [Range(0, float('inf')), NotIn([0])]\n    return All(thetype, *bounds)\n"),
     Benign('scaling-unified-loop-with-counter', BASE, _SCALE_OLD, _SCALE_UNIFIED),
     Benign('note-early-return-fstring-conditional-key', BASE, _NOTE_OLD, _NOTE_EARLY_RETURN),
     Benign('ok-from-stored-grade', BASE, "                result['ok'] = self.grade_decimal_to_ok(grade)", "                result['ok'] = self.grade_decimal_to_ok(result['grade_decimal'])"),
